@@ -20,6 +20,7 @@ type Obligation struct {
 	Src       string
 	Query     string
 	ExpectSat bool     // vacuity / reachability checks: sat is the good answer
+	AltQuery  string   // for continuation checks: if Query is unsat, AltQuery (the state before) must be unsat too
 	Inputs    []string // SMT names of inputs to extract from a model
 	InputDesc []string
 	Props     []string
@@ -80,8 +81,10 @@ type FnExec struct {
 	inDefers bool
 	curBindings []ssa.Value
 	curArgs []Val
+	callReach []callReachRec
 	assertHit map[int]bool
 	locals []localAlloc // non-escaping stack variables: callees cannot touch them
+	ownedRegions []*ownedRegion
 	freshObjs []*freshObj // objects allocated for this function (fresh results) whose address has not escaped
 	derived map[Term]Term // field/element address -> base address it was derived from
 	oblNames map[string]int
@@ -89,6 +92,11 @@ type FnExec struct {
 	modelTerms [][2]string
 	ptrLeaves map[ssa.Value][]Leaf // pointers to struct fields: the heaps their target lives in
 	nonNil map[Term]bool
+}
+
+type callReachRec struct {
+	name          string
+	before, after Term
 }
 
 type freshObj struct {
@@ -100,7 +108,7 @@ type freshObj struct {
 // noteEscape: a value handed to code we know nothing about; fresh objects it points to
 // (directly or through a field address) can be modified from then on.
 func (x *FnExec) noteEscape(v Val) {
-	if len(x.freshObjs) == 0 {
+	if len(x.freshObjs) == 0 && len(x.ownedRegions) == 0 {
 		return
 	}
 	for _, l := range v.Flatten() {
@@ -114,6 +122,11 @@ func (x *FnExec) noteEscape(v Val) {
 					o.escaped = true
 				}
 			}
+			for _, o := range x.ownedRegions {
+				if o.base == t {
+					o.escaped = true
+				}
+			}
 			b, ok := x.derived[t]
 			if !ok {
 				break
@@ -121,6 +134,158 @@ func (x *FnExec) noteEscape(v Val) {
 			t = b
 		}
 	}
+}
+
+// ownedRegion: the backing array of a slice parameter declared with 'owns'.
+type ownedRegion struct {
+	base, end Term
+	elem      types.Type
+	escaped   bool
+}
+
+// restoreOwned: after a havoc (callee or loop cut) owned regions that were never handed out and
+// (with int_values_immutable) the big integers behind math.Int values keep their content.
+func (x *FnExec) restoreOwned(st *State, old map[string]Term) {
+	for _, o := range x.ownedRegions {
+		if o.escaped {
+			continue
+		}
+		seen := map[string]bool{}
+		for _, leaf := range x.mem.Leaves(o.elem) {
+			if seen[leaf.Key] {
+				continue
+			}
+			seen[leaf.Key] = true
+			ob, ok := old[leaf.Key]
+			if !ok {
+				continue
+			}
+			cur, ok := st.heaps[leaf.Key]
+			if !ok || cur == ob {
+				continue
+			}
+			x.ctx.Assert(fmt.Sprintf("(forall ((a Int)) (! (=> (and (<= %s a) (< a %s)) (= (select %s a) (select %s a))) :pattern ((select %s a))))", o.base, o.end, cur, ob, cur))
+		}
+	}
+	if x.con == nil || !x.con.IntImmutable {
+		return
+	}
+	ob, ok := old["Big"]
+	if !ok {
+		return
+	}
+	cur, ok := st.heaps["Big"]
+	if !ok || cur == ob {
+		return
+	}
+	seen := map[Term]bool{}
+	var refs []Term
+	add := func(v ssa.Value) {
+		val, ok := x.vals[v]
+		if !ok {
+			return
+		}
+		var rs []Term
+		intRefs(val, v.Type(), &rs)
+		for _, r := range rs {
+			if !seen[r] {
+				seen[r] = true
+				refs = append(refs, r)
+			}
+		}
+	}
+	for _, p := range x.fn.Params {
+		add(p)
+	}
+	for _, fv := range x.fn.FreeVars {
+		add(fv)
+	}
+	for _, b := range x.fn.Blocks {
+		for _, in := range b.Instrs {
+			if v, ok := in.(ssa.Value); ok {
+				add(v)
+			}
+		}
+	}
+	// Ints stored in this function's own stack variables
+	for _, l := range x.locals {
+		offs := intRefOffsets(x.mem, l.t)
+		for _, off := range offs {
+			key := x.mem.Leaves(l.t)[off].Key
+			h, ok := st.heaps[key]
+			if !ok {
+				continue
+			}
+			r := Sel(h, Add(l.addr, Lit(int64(off))))
+			if !seen[r] {
+				seen[r] = true
+				refs = append(refs, r)
+			}
+		}
+	}
+	if len(refs) == 0 {
+		return
+	}
+	for _, r := range refs {
+		cur = Sto(cur, r, Sel(ob, r))
+	}
+	st.heaps["Big"] = x.ctx.Define("H_Big", SArrI, cur)
+}
+
+const sdkIntKey = "cosmossdk.io/math.Int"
+
+// intRefs: the *big.Int pointers of the math.Int values inside v (structs and tuples are
+// searched, pointers and slices are not followed).
+func intRefs(v Val, t types.Type, out *[]Term) {
+	if t == nil {
+		return
+	}
+	if tup, ok := t.(*types.Tuple); ok {
+		if v.IsComp() && len(v.F) == tup.Len() {
+			for i := 0; i < tup.Len(); i++ {
+				intRefs(v.F[i], tup.At(i).Type(), out)
+			}
+		}
+		return
+	}
+	if isOpaque(t) {
+		return
+	}
+	st, ok := t.Underlying().(*types.Struct)
+	if !ok || !v.IsComp() || len(v.F) != st.NumFields() {
+		return
+	}
+	if typeKey(t) == sdkIntKey && st.NumFields() == 1 && !v.F[0].IsComp() {
+		*out = append(*out, v.F[0].T)
+		return
+	}
+	for i := 0; i < st.NumFields(); i++ {
+		intRefs(v.F[i], st.Field(i).Type(), out)
+	}
+}
+
+// intRefOffsets: leaf offsets inside a value of type t that hold the pointer of a math.Int.
+func intRefOffsets(m *Mem, t types.Type) []int {
+	var out []int
+	var walk func(t types.Type, base int)
+	walk = func(t types.Type, base int) {
+		if isOpaque(t) {
+			return
+		}
+		st, ok := t.Underlying().(*types.Struct)
+		if !ok {
+			return
+		}
+		if typeKey(t) == sdkIntKey && st.NumFields() == 1 {
+			out = append(out, base)
+			return
+		}
+		for i := 0; i < st.NumFields(); i++ {
+			walk(st.Field(i).Type(), base+m.FieldOffset(t, i))
+		}
+	}
+	walk(t, 0)
+	return out
 }
 
 type localAlloc struct {
@@ -523,7 +688,18 @@ func (x *FnExec) run() {
 				continue
 			}
 		}
-		x.errorf("owns %s: not a pointer parameter", own)
+		if tv, ok := env.vars[own]; ok && tv.T != nil {
+			if sl, ok := tv.T.Underlying().(*types.Slice); ok && tv.V.IsComp() && len(tv.V.F) == 3 {
+				sz := x.mem.Size(sl.Elem())
+				x.ownedRegions = append(x.ownedRegions, &ownedRegion{base: tv.V.F[0].T, end: Add(tv.V.F[0].T, Mul(tv.V.F[2].T, Lit(int64(sz)))), elem: sl.Elem()})
+				x.ctx.Note("assumed: the backing array of " + own + " is not aliased by keeper state: callees that are not handed the slice do not modify it")
+				continue
+			}
+		}
+		x.errorf("owns %s: not a pointer or slice parameter", own)
+	}
+	if x.con.IntImmutable {
+		x.ctx.Note("assumed (int_values_immutable): callees never mutate the big integer behind a cosmossdk.io/math.Int value held by this function (the Int API is value-immutable)")
 	}
 	x.collectDebugNames()
 	x.findLoops()
@@ -1196,6 +1372,7 @@ func (x *FnExec) havocLoop(h *ssa.BasicBlock, st *State, ls *LoopSpec, pre *Stat
 			}
 		}
 	}
+	x.restoreOwned(st, old)
 	x.ctx.Note(fmt.Sprintf("loop %d of %s: no 'modifies' clause, all heaps havocked at the cut", x.loopOrd[h], x.fnName()))
 }
 
